@@ -5,7 +5,9 @@ write_double_quoted / json.dumps with the Coq model and of the Coq YAML decoders
 vcr_writer / har_writer on stub recorders over nasty traffic (model predicts which scalar sites survive; the
 oracle re-parses the whole file and compares every field) -> Statistic + JunitXMLHandler on generated event
 histories built from real ScenarioRecorders vs the Coq state machine -> CassetteWriter thread on generated
-histories vs the Coq queue machine -> the lifecycle of the writer thread (queue, join with a timeout, sys.exit) under
+histories vs the Coq queue machine -> ExecutionContext + CassetteWriter (VCR, HAR) + JunitXMLHandler on histories of WHOLE
+ScenarioFinished events (phase, label, status, skip_reason, is_final, recorder) vs Model_C16 Part 6 (written_ev,
+junit_run_ev) -> the lifecycle of the writer thread (queue, join with a timeout, sys.exit) under
 generated schedules vs the Coq transition system `lrun` (parameters read from the real CassetteWriter) -> real
 `st run --report vcr,har,junit` against the loopback server -> the real CLI in a process of its own (c16_child.py) with
 the report files on a slow device, re-parsed after the process has exited.
@@ -1037,7 +1039,7 @@ def run_history_impl(h):
     return out
 
 
-def canon_model_run(m):
+def canon_model_run(m, LABELS=LABELS):
     """Parsed jresult -> canonical dict comparable with run_history_impl."""
     if isinstance(m, tuple) and m[0] == "Crash":
         return {"crash": LABELS[m[1]]}
@@ -1144,6 +1146,20 @@ def c_chistory(h):
     return clist(evs, "cevent")
 
 
+def event_attrs(ints):
+    """The attributes of the ScenarioFinished event that an item of a REDUCED history (a list of interactions) stands for.  They are a
+    function of the item, so a history always gives the same events (replays), and the stages that work on reduced histories still
+    put every value of phase / label / status / skip_reason / is_final in front of the handler (theorem
+    C16_each_interaction_once_all_events_*: none of them matters)."""
+    from schemathesis.engine import Status
+    from schemathesis.engine.phases import PhaseName
+
+    k = sum(i["id"] for i in ints) + 3 * len(ints)
+    phase = [PhaseName.FUZZING, PhaseName.STATEFUL_TESTING, PhaseName.COVERAGE, PhaseName.EXAMPLES][k % 4]
+    return {"phase": phase, "label": None if phase is PhaseName.STATEFUL_TESTING else "GET /x", "status": list(Status)[(k // 2) % 5],
+            "is_final": (k // 3) % 2 == 1, "skip_reason": "why <&>" if k % 5 == 0 else None}
+
+
 def run_cassette_thread(fmt, sanitize, preserve, h):
     """The real CassetteWriter handler with its thread. Returns (ids written, 'Closed' | 'Died' | 'Waiting')."""
     from schemathesis.cli.commands.run.context import ExecutionContext
@@ -1171,7 +1187,7 @@ def run_cassette_thread(fmt, sanitize, preserve, h):
                 inters.append({"id": f"i{i['id']}", "uri": f"http://{'u:p@' if i['userinfo'] else ''}127.0.0.1/x", "method": "GET", "req_headers": {"A": ["b"], **({"Cookie": list(i["cookies"])} if i.get("cookies") else {})}, "req_body": None, "meta": "fuzzing", "checks": [],
                                "response": None if not i["response"] else {"status": 200, "message": "OK", "headers": {"content-type": ["text/plain"]}, "content": b"x", "encoding": {"ok": "utf-8", "unknown": "bogus", "raises": "undefined"}[i["codec"]], "http_version": "1.1"}})
             rec, _ = make_recorder(inters)
-            w.handle_event(ctx, events.ScenarioFinished(id=uuid.uuid4(), phase=PhaseName.FUZZING, suite_id=uuid.uuid4(), label="GET /x", status=Status.SUCCESS, recorder=rec, elapsed_time=0.1, skip_reason=None, is_final=False))
+            w.handle_event(ctx, events.ScenarioFinished(id=uuid.uuid4(), suite_id=uuid.uuid4(), recorder=rec, elapsed_time=0.1, **event_attrs(e)))
         w.shutdown(ctx)
         w.worker.join(10)
         alive = w.worker.is_alive()
@@ -1220,6 +1236,298 @@ def stage_cassette_thread(chk, n):
             lost[region] = lost.get(region, 0) + 1
             chk.fail(f"{fmt} writer thread died ({died}): delivered exchanges are missing from the file", case, {"written": ids, "delivered": delivered}, region=region)
     chk.stages["cassette_thread"] = {"histories": len(cases), "histories_with_lost_exchanges_inside_regions": lost}
+
+
+# ----------------------------------------------------------------------------------------
+# stage: the handlers over WHOLE ScenarioFinished events (Model_C16 Part 6: written_ev, junit_run_ev)
+# ----------------------------------------------------------------------------------------
+LABELS_EV = LABELS + ["Error"]
+PHASES_EV = {"probing": "PhProbing", "examples": "PhExamples", "coverage": "PhCoverage", "fuzzing": "PhFuzzing", "stateful": "PhStateful"}
+TCID = "X-Schemathesis-TestCaseId"
+
+
+def rand_fhistory(rng):
+    """Event histories over the full attribute space of ScenarioFinished.
+    [("scenario", {phase, label: None | idx, status, reason, final, rlabel, cases: [{no, checks, response, codec}]}) | ("error", idx) | ("other",) | ("finish",)].
+    Shapes: attributes drawn independently; a stateful run whose failing sequence is replayed as a final scenario with fresh case ids;
+    a unit phase with the final ERROR event of an operation that could not be built (empty recorder labelled Error); everything final."""
+    shape = rng.choice(["independent", "independent", "independent", "stateful-replay", "stateful-replay", "unit-error", "all-final"])
+    n_keys = rng.choice([1, 2, 3])
+    no = 0
+
+    def cases(n, fault_last=False):
+        nonlocal no
+        out = []
+        for k in range(n):
+            no += 1
+            response = not (fault_last and k == n - 1) and rng.random() < (1.0 if fault_last else 0.85)
+            checks = [rng.choice([None, None, rng.randrange(n_keys)]) for _ in range(rng.choice([0, 1, 2]))] if response else []
+            out.append({"no": no, "checks": checks, "response": response, "codec": rng.choice(["ok"] * 12 + ["unknown", "unknown", "raises"]) if response else "ok"})
+        return out
+
+    def scenario(**kw):
+        phase = kw.get("phase", rng.choice(list(PHASES_EV)))
+        rlabel = kw.get("rlabel", 2 if phase == "stateful" and rng.random() < 0.8 else rng.randrange(len(LABELS_EV)))
+        ev = {"phase": phase, "rlabel": rlabel,
+              "label": kw["label"] if "label" in kw else rng.choice([None, rlabel, rlabel, rng.randrange(len(LABELS_EV))]),
+              "status": kw.get("status", rng.choice(STATUSES)), "reason": kw.get("reason", rng.random() < 0.4),
+              "final": kw.get("final", rng.random() < 0.45), "cases": kw["cases"] if "cases" in kw else cases(rng.choice([0, 1, 1, 2, 3]))}
+        if ev["status"] == "StFailure" and ev["cases"] and rng.random() < 0.7:
+            c = next((c for c in ev["cases"] if c["response"]), None)
+            if c is not None and not any(k is not None for k in c["checks"]):
+                c["checks"] = c["checks"] + [rng.randrange(n_keys)]
+        return ("scenario", ev)
+
+    h = []
+    if shape == "stateful-replay":
+        steps = rng.choice([2, 2, 3])
+        for _ in range(rng.choice([1, 2, 3])):
+            ok = rng.random() < 0.4
+            h.append(scenario(phase="stateful", label=None, rlabel=2, final=False, status="StSuccess" if ok else rng.choice(["StError", "StError", "StFailure", "StSkip"]),
+                              reason=False, cases=cases(steps, fault_last=not ok)))
+        h.append(scenario(phase="stateful", label=None, rlabel=2, final=True, status=rng.choice(["StError", "StError", "StFailure"]), reason=False, cases=cases(steps, fault_last=True)))
+        if rng.random() < 0.7:
+            h.append(("error", 2))
+    elif shape == "unit-error":
+        for _ in range(rng.choice([1, 2, 4])):
+            l = rng.randrange(len(LABELS))
+            if rng.random() < 0.35:
+                h.append(("error", l))
+                h.append(scenario(phase=rng.choice(["examples", "coverage", "fuzzing"]), label=l, rlabel=len(LABELS), final=True, status="StError", reason=False, cases=[]))
+            else:
+                h.append(scenario(phase=rng.choice(["examples", "coverage", "fuzzing"]), label=l, rlabel=l, final=False))
+    else:
+        for _ in range(rng.choice([1, 2, 3, 5, 8])):
+            k = rng.random()
+            if k < 0.8:
+                h.append(scenario(final=True) if shape == "all-final" else scenario())
+            elif k < 0.9:
+                h.append(("error", rng.randrange(len(LABELS_EV))))
+            else:
+                h.append(("other",))
+    if rng.random() < 0.9:
+        h.append(("finish",))
+    return h
+
+
+def c_fhistory(h):
+    evs = []
+    for e in h:
+        if e[0] == "scenario":
+            ev = e[1]
+            cs = clist(["{| c_id := %d; c_checks := %s |}" % (c["no"], clist(["None" if k is None else f"(Some {k}%N)" for k in c["checks"]], "(option fkey)")) for c in ev["cases"]], "case_rec")
+            ints = clist(["{| i_id := %d; i_userinfo := false; i_response := %s; i_codec := %s; i_cookie_values := [] |}" % (
+                c["no"], cbool(c["response"]), {"ok": "CodecOk", "unknown": "CodecUnknown", "raises": "CodecRaises"}[c["codec"]]) for c in ev["cases"]], "inter")
+            evs.append("FScenario {| sf_phase := %s; sf_label := %s; sf_status := %s; sf_skip_reason := %s; sf_is_final := %s; sf_rlabel := %d; sf_cases := %s; sf_inters := %s |}" % (
+                PHASES_EV[ev["phase"]], "None" if ev["label"] is None else f"(Some {ev['label']}%N)", ev["status"], cbool(ev["reason"]), cbool(ev["final"]), ev["rlabel"], cs, ints))
+        elif e[0] == "error":
+            evs.append(f"FNonFatal {e[1]}")
+        elif e[0] == "finish":
+            evs.append("FEngineFinished")
+        else:
+            evs.append("FOther")
+    return clist(evs, "fevent")
+
+
+def build_fevent(e):
+    """The real engine event of one history item, its recorder built from real Request / Response / Interaction objects."""
+    from schemathesis.core.transport import Response
+    from schemathesis.engine import Status, events
+    from schemathesis.engine.phases import PhaseName
+    from schemathesis.engine.recorder import Interaction, Request, ScenarioRecorder
+
+    if e[0] == "error":
+        return events.NonFatalError(error=ValueError("boom <&>"), phase=PhaseName.FUZZING, label=LABELS_EV[e[1]], related_to_operation=True)
+    if e[0] == "finish":
+        return events.EngineFinished(running_time=1.0)
+    if e[0] == "other":
+        return events.EngineStarted()
+    ev = e[1]
+    status_of = {"StSuccess": Status.SUCCESS, "StFailure": Status.FAILURE, "StError": Status.ERROR, "StSkip": Status.SKIP, "StInterrupted": Status.INTERRUPTED}
+    rlabel = LABELS_EV[ev["rlabel"]]
+    rec = ScenarioRecorder(label=rlabel)
+    for c in ev["cases"]:
+        cid = f"case{c['no']}"
+        meta = make_meta({"meta": "stateful" if ev["phase"] == "stateful" else "fuzzing"})
+        rec.cases[cid] = SimpleNamespace(value=SimpleNamespace(id=cid, operation=SimpleNamespace(label=rlabel), meta=meta), parent_id=None, transition=None)  # type: ignore[assignment]
+        uri = f"http://127.0.0.1/x?i={cid}"
+        resp = None
+        if c["response"]:
+            resp = Response(status_code=500, headers={"content-type": ["text/plain"]}, content=b'x \xc3\xa9 <&> ]]>', request=SimpleNamespace(method="GET", url=uri, headers={}, body=None),  # type: ignore[arg-type]
+                            elapsed=0.1, verify=True, message="Internal Server Error", http_version="1.1", encoding={"ok": "utf-8", "unknown": "bogus", "raises": "undefined"}[c["codec"]])
+        rec.interactions[cid] = Interaction(request=Request(method="GET", uri=uri, body=None, body_size=None, headers={TCID: [cid], "A": ["b"]}), response=resp)
+        if resp is not None:
+            rec.checks[cid] = []
+            for i, k in enumerate(c["checks"]):
+                if k is None:
+                    rec.record_check_success(name=f"check{i}", case_id=cid)
+                else:
+                    rec.record_check_failure(name=f"check{i}", case_id=cid, code_sample=f"curl -X GET '{uri}'", failure=failure_for(k, ev["rlabel"]))
+            if not c["checks"]:
+                del rec.checks[cid]
+    return events.ScenarioFinished(id=uuid.uuid4(), phase={"probing": PhaseName.PROBING, "examples": PhaseName.EXAMPLES, "coverage": PhaseName.COVERAGE, "fuzzing": PhaseName.FUZZING,
+                                                          "stateful": PhaseName.STATEFUL_TESTING}[ev["phase"]], suite_id=uuid.uuid4(),
+                                   label=None if ev["label"] is None else LABELS_EV[ev["label"]], status=status_of[ev["status"]], recorder=rec, elapsed_time=0.5,
+                                   skip_reason="no data <&>" if ev["reason"] else None, is_final=ev["final"])
+
+
+def run_fhistory(h, sanitize, preserve):
+    """The history through ExecutionContext.on_event and the three REAL report handlers, in the order of executor._execute.
+    Returns what is in vcr.yaml, har.json, junit.xml after shutdown, re-parsed, and what was delivered (read from the event objects)."""
+    from schemathesis.cli.commands.run.context import ExecutionContext
+    from schemathesis.cli.commands.run.handlers.cassettes import CassetteWriter
+    from schemathesis.cli.commands.run.handlers.junitxml import JunitXMLHandler
+    from schemathesis.cli.commands.run.reports import ReportFormat
+    from schemathesis.engine import events
+
+    died = []
+    saved_hook = threading.excepthook
+    threading.excepthook = lambda args: died.append((args.thread, args.exc_type.__name__))
+    sinks = {"VCR": Sink(), "HAR": Sink()}
+    for snk in sinks.values():
+        snk.close = lambda: None  # type: ignore[method-assign]
+    xml = io.StringIO()
+    out = {"crash": None}
+    try:
+        ctx = ExecutionContext(seed=1)
+        writers = {fmt: CassetteWriter(format=ReportFormat.HAR if fmt == "HAR" else ReportFormat.VCR, path=sinks[fmt], sanitize_output=sanitize, preserve_bytes=preserve)  # type: ignore[arg-type]
+                   for fmt in ("VCR", "HAR")}
+        junit = JunitXMLHandler(file_handle=xml)  # type: ignore[arg-type]
+        handlers = [writers["VCR"], writers["HAR"], junit]
+        evs = [build_fevent(e) for e in h]
+        at = None
+        try:
+            for hd in handlers:
+                hd.start(ctx)
+            for ev in evs:
+                ctx.on_event(ev)
+                for hd in handlers:
+                    at = type(hd).__name__
+                    hd.handle_event(ctx, ev)
+        except Exception as exc:  # noqa: BLE001  (_execute re-raises: the run aborts)
+            out["crash"] = f"{type(exc).__name__}: {exc}"
+            out["crash_in"] = at
+        finally:
+            for hd in handlers:
+                hd.shutdown(ctx)
+        for w in writers.values():
+            w.worker.join(10)
+        out["end"] = {fmt: "Waiting" if w.worker.is_alive() else "Died" if any(th is w.worker for th, _ in died) else "Closed" for fmt, w in writers.items()}
+        out["died"] = [name for _, name in died]
+    finally:
+        threading.excepthook = saved_hook
+    out["delivered"] = [(cid, i) for i, ev in enumerate(evs) if isinstance(ev, events.ScenarioFinished) for cid in ev.recorder.interactions]
+    y = yaml_load(sinks["VCR"].buf.getvalue())
+    out["VCR"] = [(e["id"], e["response"] is None or "http_version" in e["response"]) for e in (y[1].get("http_interactions") or [])] if y[0] == "ok" and isinstance(y[1], dict) else "unparseable"
+    try:
+        entries = json.loads(sinks["HAR"].buf.getvalue())["log"]["entries"]
+        out["HAR"] = [(next((hd["value"] for hd in e["request"]["headers"] if hd["name"] == TCID), None), True) for e in entries]
+    except (ValueError, KeyError):
+        out["HAR"] = "unparseable"
+    out["xml"] = xml.getvalue()
+    out["failures"] = {label: {cid: sorted(f.message for f in g.failures) for cid, g in groups.items()} for label, groups in ctx.statistic.failures.items()}
+    out["unique"] = sorted(f.message for f in ctx.statistic.unique_failures_map)
+    out["test_cases"] = list(junit.test_cases)
+    return out
+
+
+def stage_event_space(chk, n):
+    rng = chk.rng
+    corpus = [json.loads(p.read_text()) for p in sorted((core.VERIF / "corpus" / "C16").glob("events_*.json"))]
+    cases = [([tuple(e) for e in c["history"]], c.get("sanitize", False), c.get("preserve", False)) for c in corpus]
+    cases += [(rand_fhistory(rng), rng.random() < 0.5, rng.random() < 0.4) for _ in range(n)]
+    exprs = []
+    for h, san, pres in cases:
+        ch = c_fhistory(h)
+        conf = "{| w_fmt := %s; w_sanitize := " + cbool(san) + "; w_preserve := " + cbool(pres) + " |}"
+        exprs.append(f"(let h := {ch} in (written_ev ({conf % 'VCR'}) h, written_ev ({conf % 'HAR'}) h, delivered_ev h, junit_run_ev h, lost_by skip_final h))")
+    model = core.coq_eval(IMPORTS, exprs)
+    stats = {"histories": len(cases), "corpus": len(corpus), "scenario_events": 0, "final_events_with_interactions": 0, "events_without_label": 0,
+             "histories_the_skip_final_rule_would_cut": 0, "lost_inside_regions": {}, "aborted_runs_inside_regions": {}}
+    # Coq prints left-nested pairs flat: ((a, b), c, d) comes back as (a, b, c, d)
+    for (h, san, pres), (m_vcr_ids, m_vcr_end, m_har, m_deliv, m_junit, m_lost_sentinel) in zip(cases, model):
+        m_vcr = (m_vcr_ids, m_vcr_end)
+        case = {"history": h, "sanitize": san, "preserve": pres}
+        scen = [e[1] for e in h if e[0] == "scenario"]
+        stats["scenario_events"] += len(scen)
+        stats["final_events_with_interactions"] += sum(1 for ev in scen if ev["final"] and ev["cases"])
+        stats["events_without_label"] += sum(1 for ev in scen if ev["label"] is None)
+        stats["histories_the_skip_final_rule_would_cut"] += bool(m_lost_sentinel)
+        chk.seen(case, any(ev["final"] and ev["cases"] for ev in scen))
+        for ev in scen:
+            chk.count(f"event:{ev['phase']}:{'final' if ev['final'] else 'not-final'}:{'no-label' if ev['label'] is None else 'label'}")
+        impl = run_fhistory(h, san, pres)
+        m_abort = m_junit[1] if m_junit[0] == "Aborted" else None
+        if impl["crash"] is not None or m_abort is not None:
+            # format_failures reads response.text and catches UnicodeDecodeError only (Model_C16 junit_step_ev, finding C16-F11)
+            kind = impl["crash"].split(":")[0] if impl["crash"] else None
+            text_abort = kind in ("LookupError", "UnicodeError") and impl.get("crash_in") == "JunitXMLHandler"
+            if text_abort != (m_abort is not None and m_abort[0] == "AbortText"):
+                chk.disagree("JunitXMLHandler aborts the run while rendering a failure (response.text raises) vs Model_C16.junit_run_ev", case, [impl["crash"], impl.get("crash_in")], m_abort)
+            if impl["crash"] is not None:
+                undecodable = any(c["response"] and c["codec"] != "ok" for ev in scen for c in ev["cases"])
+                region = "junit_failure_text_undecodable" if text_abort and undecodable else None
+                stats["aborted_runs_inside_regions"][str(region)] = stats["aborted_runs_inside_regions"].get(str(region), 0) + 1
+                chk.fail(f"{impl.get('crash_in')} raised {impl['crash']}: the run aborts (Internal Error), junit.xml is not written", case, None, region=region)
+            continue
+        delivered = [cid for cid, _ in impl["delivered"]]
+        if delivered != [f"case{k}" for k in m_deliv]:
+            chk.disagree("interactions of the recorders handed to the handlers vs Model_C16.delivered_ev", case, delivered, m_deliv)
+            continue
+        # (a) correspondence: the files vs the model of the handler + writer
+        for fmt, (m_ids, m_end) in (("VCR", m_vcr), ("HAR", m_har)):
+            exp = [(f"case{k}", done) for k, done in m_ids]
+            if fmt == "HAR":
+                got, want = (impl["HAR"] if impl["end"]["HAR"] == "Closed" else None, impl["end"]["HAR"]), (exp if m_end == "Closed" else None, m_end)
+            else:
+                got, want = (impl["VCR"], impl["end"]["VCR"]), (exp, m_end)
+            if got != want:
+                chk.disagree(f"CassetteWriter.handle_event + {fmt} writer over whole ScenarioFinished events (ids in the file, end state) vs Model_C16.written_ev", case, [got, impl["died"]], want)
+        # (b) oracle, from the event objects only: every interaction of every delivered recorder is in each file exactly once
+        for fmt in ("VCR", "HAR"):
+            ids = impl[fmt]
+            if impl["end"][fmt] == "Closed" and ids != "unparseable" and [i for i, _ in ids] == delivered and all(done for _, done in ids):
+                continue
+            raising = fmt == "VCR" and not pres and any(c["response"] and c["codec"] == "raises" for ev in scen for c in ev["cases"])
+            region = "codec_decode_raises" if raising and impl["end"][fmt] == "Died" else None
+            stats["lost_inside_regions"][str(region)] = stats["lost_inside_regions"].get(str(region), 0) + 1
+            in_file = {} if ids == "unparseable" else {i: sum(1 for j, _ in ids if j == i) for i, _ in ids}
+            missing = [(cid, h[idx][1]) for cid, idx in impl["delivered"] if in_file.get(cid, 0) == 0]
+            events_lost = []
+            for cid, ev in missing:
+                d = {"phase": ev["phase"], "is_final": ev["final"], "status": ev["status"], "label": None if ev["label"] is None else LABELS_EV[ev["label"]], "recorder_label": LABELS_EV[ev["rlabel"]]}
+                if d not in events_lost:
+                    events_lost.append(d)
+            what = (f"{fmt} report: {len(missing)} of {len(delivered)} interactions that were delivered to the handler are not in the file" if missing and impl["end"][fmt] == "Closed"
+                    else f"{fmt} report: the writer thread ended {impl['end'][fmt]} ({impl['died']}), the file does not hold every delivered interaction exactly once")
+            if region is None:
+                stats["failing_histories_outside_regions"] = stats.get("failing_histories_outside_regions", 0) + 1
+                if stats["failing_histories_outside_regions"] > 4:
+                    continue  # four concrete histories are reported, the rest is counted
+            chk.fail(what + (f"; their events: {events_lost[:3]}" if events_lost and region is None else ""), case,
+                     {"delivered": delivered, "in_the_file": ids, "missing": [cid for cid, _ in missing], "duplicated": [i for i, k in in_file.items() if k > 1], "events_of_the_missing": events_lost}, region=region)
+        # (c) JUnit: state and file vs junit_run_ev; oracle: every FAILURE event leaves a failure element under its recorder label
+        mod = canon_model_run(("Running",) + tuple(m_junit[1:4]), LABELS_EV)
+        for key in ("failures", "unique", "test_cases"):
+            if impl[key] != mod.get(key):
+                chk.disagree(f"Statistic / JunitXMLHandler state ({key}) over whole events vs Model_C16.junit_run_ev", case, impl[key], mod.get(key))
+        if any(e[0] == "finish" for e in h):
+            try:
+                got = parse_junit(impl["xml"])
+            except ET.ParseError as exc:
+                chk.fail(f"JUnit report is not XML: {exc}", case, impl["xml"][:400], region=None)
+                continue
+            if got != mod["written"]:
+                chk.disagree("JUnit file (testcase, failure elements, #skipped, #error) over whole events vs Model_C16.junit_run_ev", case, got, mod["written"])
+            by_name = {name: fails for name, fails, _s, _e in got}
+            for e in h:
+                if e[0] == "finish":
+                    break
+                if e[0] == "scenario" and e[1]["status"] == "StFailure" and not by_name.get(LABELS_EV[e[1]["rlabel"]]):
+                    chk.fail(f"a FAILURE scenario (is_final={e[1]['final']}, phase {e[1]['phase']}) of {LABELS_EV[e[1]['rlabel']]!r} has no failure element in junit.xml", case, got, region=None)
+        elif impl["xml"]:
+            chk.disagree("JUnit file written without EngineFinished", case, impl["xml"][:100], None)
+    chk.stages["handlers_over_whole_events"] = stats
 
 
 # ----------------------------------------------------------------------------------------
@@ -1297,7 +1605,7 @@ def _scenario_event(ints):
         inters.append({"id": f"i{i['id']}", "uri": f"http://{'u:p@' if i['userinfo'] else ''}127.0.0.1/x?i=i{i['id']}", "method": "GET", "req_headers": {"A": ["b"], **({"Cookie": list(i["cookies"])} if i.get("cookies") else {})}, "req_body": None, "meta": "fuzzing", "checks": [],
                        "response": None if not i["response"] else {"status": 200, "message": "OK", "headers": {"content-type": ["text/plain"]}, "content": b"x", "encoding": {"ok": "utf-8", "unknown": "bogus", "raises": "undefined"}[i["codec"]], "http_version": "1.1"}})
     rec, _ = make_recorder(inters)
-    return events.ScenarioFinished(id=uuid.uuid4(), phase=PhaseName.FUZZING, suite_id=uuid.uuid4(), label="GET /x", status=Status.SUCCESS, recorder=rec, elapsed_time=0.1, skip_reason=None, is_final=False)
+    return events.ScenarioFinished(id=uuid.uuid4(), suite_id=uuid.uuid4(), recorder=rec, elapsed_time=0.1, **event_attrs(ints))
 
 
 def _other_event():
@@ -1590,6 +1898,7 @@ def run_cli(raw, responder, extra, userinfo="", sanitize=None):
 
     delivered = []
     scenarios = []
+    events_full = []
 
     class Capture(EventHandler):
         def __init__(self, *a, **k):
@@ -1598,6 +1907,9 @@ def run_cli(raw, responder, extra, userinfo="", sanitize=None):
         def handle_event(self, ctx, event):
             if isinstance(event, ev_mod.ScenarioFinished):
                 scenarios.append((event.recorder.label, event.status.name))
+                # the whole event: every attribute a handler could make its decision on
+                events_full.append({"phase": event.phase.name, "label": event.label, "status": event.status.name, "is_final": event.is_final,
+                                    "skip_reason": event.skip_reason, "recorder_label": event.recorder.label, "ids": list(event.recorder.interactions)})
                 for cid, inter in event.recorder.interactions.items():
                     delivered.append((cid, inter))
 
@@ -1638,6 +1950,7 @@ def run_cli(raw, responder, extra, userinfo="", sanitize=None):
         out["received"] = [r for r in rec.take() if not r["target"].startswith("/openapi.json")]
         out["delivered"] = delivered
         out["scenarios"] = scenarios
+        out["events_full"] = events_full
         out["argv"] = args
         out["writer_died"] = died
     finally:
@@ -1819,6 +2132,46 @@ def check_cli_artifacts(chk, name, out, preserve, region_hint=None, sanitized=Fa
     return ok
 
 
+def check_each_delivered_once(chk, name, out):
+    """End-to-end oracle over the ScenarioFinished events a capture handler saw in a real run: the multiset of case ids in vcr.yaml and in
+    har.json (the X-Schemathesis-TestCaseId request header of each entry) is the multiset of the interactions of ALL delivered recorders.
+    Reports which events (phase, is_final, status, label) the missing interactions came with."""
+    from collections import Counter
+
+    events_full = out.get("events_full", [])
+    delivered = [cid for e in events_full for cid in e["ids"]]
+    owner = {cid: e for e in events_full for cid in e["ids"]}
+    served = {}
+    for r in out["received"]:
+        served[{k.lower(): v for k, v in r["headers"]}.get(TCID.lower())] = f"{r['method']} {r['target']}"
+    files = {}
+    y = yaml_load(out["vcr.yaml"] or "")
+    if y[0] == "ok" and isinstance(y[1], dict):
+        files["vcr.yaml"] = [e.get("id") for e in (y[1].get("http_interactions") or [])]
+    try:
+        files["har.json"] = [next((hd["value"] for hd in e["request"]["headers"] if hd["name"].lower() == TCID.lower()), None) for e in json.loads(out["har.json"] or "")["log"]["entries"]]
+    except (ValueError, KeyError, TypeError):
+        pass
+    ok = True
+    for fname, ids in files.items():
+        got, want = Counter(ids), Counter(delivered)
+        if got == want:
+            continue
+        ok = False
+        missing = [cid for cid in delivered if got[cid] == 0]
+        evs = []
+        for cid in missing:
+            e = owner[cid]
+            d = {"phase": e["phase"], "is_final": e["is_final"], "status": e["status"], "label": e["label"], "recorder_label": e["recorder_label"], "interactions_in_the_event": len(e["ids"])}
+            if d not in evs:
+                evs.append(d)
+        chk.fail(f"st run [{name}]: {fname} holds {sum(1 for c in want if got[c] >= 1)} of the {len(delivered)} interactions delivered to the reporters in ScenarioFinished events "
+                 f"(each must appear exactly once); the missing ones came with {evs[:2]}", {"scenario": name, "file": fname},
+                 {"missing": [(cid, served.get(cid, "not seen by the server")) for cid in missing][:8], "duplicated": [c for c, k in got.items() if k > 1][:5],
+                  "not_delivered_but_in_the_file": [c for c in got if c not in want][:5], "events_of_the_missing": evs, "delivered_events": len(events_full)}, region=None)
+    return ok
+
+
 PATHS_PLAIN = {
     "/items/{id}": {"get": {"parameters": [{"name": "id", "in": "path", "required": True, "schema": {"type": "string"}},
                                             {"name": "q", "in": "query", "schema": {"type": "string"}},
@@ -1851,6 +2204,34 @@ def cookie_responder(item):
 PATHS_ODATA = {"/users('{id}')": {"get": {"parameters": [{"name": "id", "in": "path", "required": True, "schema": {"type": "integer"}}], "responses": {"200": {"description": "ok"}}}}}
 PATHS_LINKS = {"/u": {"get": {"operationId": "getU", "responses": {"200": {"description": "ok", "links": {"self": {"operationId": "getU"}}}}},
                       "post": {"operationId": "postU", "responses": {"201": {"description": "ok", "links": {"get": {"operationId": "getU"}}}}}}}
+
+
+# a linked sequence whose second step meets a transport error: POST /users answers 201, the server drops the connection on GET /users/{id}
+PATHS_REPLAY = {
+    "/users": {"post": {"operationId": "createUser",
+                        "requestBody": {"required": True, "content": {"application/json": {"schema": {"type": "object", "properties": {"name": {"type": "string", "maxLength": 5}},
+                                                                                                      "required": ["name"], "additionalProperties": False}}}},
+                        "responses": {"201": {"description": "Created", "content": {"application/json": {"schema": {"type": "object"}}},
+                                              "links": {"GetUser": {"operationId": "getUser", "parameters": {"id": "$response.body#/id"}}}}}}},
+    "/users/{id}": {"get": {"operationId": "getUser", "parameters": [{"name": "id", "in": "path", "required": True, "schema": {"type": "integer"}}],
+                            "responses": {"200": {"description": "OK", "content": {"application/json": {"schema": {"type": "object"}}}}}}},
+}
+
+
+REPLAY_ID = 918273645   # only reachable through the link: a generated id meets a 404, so the failing sequence needs the answered POST first
+
+
+def replay_responder(item):
+    if item["method"] == "GET" and item["target"].startswith("/users/"):
+        if item["target"].split("?")[0] == f"/users/{REPLAY_ID}":
+            raise ConnectionError("the loopback server closes the connection without a response")
+        return 404, [("Content-Type", "application/json")], b'{"error": "no such user"}'
+    return 201, [("Content-Type", "application/json")], json.dumps({"id": REPLAY_ID}).encode()
+
+
+def final_replays(out):
+    """The ScenarioFinished events of a real run that are Hypothesis' final replay of a failing sequence AND carry traffic."""
+    return [e for e in out.get("events_full", []) if e["is_final"] and e["ids"]]
 
 
 OK_JSON = lambda item: (200, [("Content-Type", "application/json")], b"{}")  # noqa: E731
@@ -1886,6 +2267,15 @@ def _run_named(kind):
         return run_cli(cli_schema(TWO_GETS), lambda item: (200, [("Content-Type", "text/plain; charset=a\x7fb")], b"hello"), FEW + ["--report-preserve-bytes"]), False
     if kind == "charset_undefined":
         return run_cli(cli_schema(TWO_GETS), lambda item: (200, [("Content-Type", "text/plain; charset=undefined")], b"hello"), FEW), False
+    if kind == "failure_charset_bogus":
+        return run_cli(cli_schema(TWO_GETS), lambda item: (500, [("Content-Type", "text/plain; charset=bogus")], b"h\xe9llo"), FEW), False
+    if kind == "stateful_transport_error":
+        out = None
+        for seed in ("1", "2", "3", "4"):
+            out = run_cli(cli_schema(PATHS_REPLAY), replay_responder, ["--phases", "stateful", "--checks", "not_a_server_error", "--max-examples", "20", "--seed", seed])
+            if final_replays(out):
+                break
+        return out, False
     raise ValueError(kind)
 
 
@@ -1969,6 +2359,31 @@ def stage_cli(chk, quick):
         if kind == "charset_quote_preserve" and not all(inter.response is not None and "'" in (inter.response.encoding or "") for _, inter in out["delivered"]):
             chk.disagree("the quoted-charset run recorded no response encoding with a single quote (nothing to look at)", {"scenario": kind}, None, None)
         if check_cli_artifacts(chk, kind, out, kind.endswith("_preserve"), sanitized=sanitized):
+            stats["clean"] += 1
+    # a stateful run in which a linked step fails with a transport error after earlier steps succeeded: Hypothesis replays the failing
+    # sequence once more as a FINAL scenario - real traffic with fresh case ids, delivered to the reporters like any other
+    kind = "stateful_transport_error"
+    out, _ = run_named(kind)
+    stats["runs"] += 1
+    stats["exchanges"] += len(out["delivered"])
+    chk.seen({"cli": kind, "exchanges": len(out["delivered"])}, True)
+    chk.count("cli:" + kind)
+    finals = final_replays(out)
+    by_id = dict(out["delivered"])
+    # the step that meets the transport error raises before anything is recorded: the replay carries the ANSWERED steps before it (POST /users -> 201)
+    shaped = [e for e in finals if e["status"] == "ERROR" and by_id[e["ids"][0]].response is not None and by_id[e["ids"][0]].request.method == "POST"]
+    stats["final_replay_events"] = len(finals)
+    stats["final_replay_interactions"] = sum(len(e["ids"]) for e in finals)
+    if not shaped:
+        chk.disagree("the stateful run with a transport error on the linked step delivered no final replay with traffic (the answered POST before the failing step): nothing to look at",
+                     {"scenario": kind}, [out["exit"], out["events_full"][-4:], out["console"][-500:]], None)
+    else:
+        served = {{k.lower(): v for k, v in r["headers"]}.get(TCID.lower()) for r in out["received"]}
+        if not all(e["ids"][0] in served for e in shaped):
+            chk.disagree("the final replay is not traffic the loopback server saw (nothing to compare with)", {"scenario": kind}, shaped[:2], None)
+        a = check_cli_artifacts(chk, kind, out, False)
+        b = check_each_delivered_once(chk, kind, out)
+        if a and b:
             stats["clean"] += 1
     chk.stages["oracle_search_cli_reports"] = stats
 
@@ -2164,6 +2579,9 @@ def witness_fails(w) -> bool:
             return True
         entries = y[1].get("http_interactions") or []
         return [e.get("id") for e in entries] != ids or bool(compare_vcr_entry(entries[0], it, w.get("preserve", False)))
+    if kind == "cli_abort":
+        out, _ = run_named(w["scenario"])
+        return out["exception"] is not None and out["exception"].split(":")[0] in w["exceptions"] and "junitxml.py" in out["console"] and "Internal Error" in out["console"]
     if kind == "cli_child":
         out = get_child_run(w["report"])
         return child_conclusive(out) and bool(child_problems(out))
@@ -2190,7 +2608,9 @@ def run(chk: core.Check):
         "the Coq decoders answer None on line folding (raw or escaped line breaks inside a scalar): they accept less than YAML, never more "
         "(validated per run against PyYAML and libyaml on generated scalar texts)",
         "failure identity is (class, operation, _unique_key) as Failure.__eq__ defines it; case ids are unique within a run",
-        "engine-emitted histories: any sequence of ScenarioFinished (any status, any recorder), NonFatalError and EngineFinished events",
+        "engine-emitted histories: any sequence of ScenarioFinished (any phase, event label, status, skip_reason, is_final, any recorder), NonFatalError and EngineFinished events; "
+        "delivered to the reporters = the interactions of the recorder of every ScenarioFinished event handed to handle_event (a final replay is real traffic with fresh case ids)",
+        "response.text raises (not UnicodeDecodeError) exactly for a non-empty payload whose charset Python does not know or whose codec raises (Model_C16 text_raises; region junit_failure_text_undecodable)",
         "process exit (Model_C16 Part 5, exit_step): sys.exit unwinds the Click context, which closes the click.File handles it created (measured per run "
         "on click.Context.close), then threading._shutdown joins every non-daemon thread without a timeout and daemon threads never run again; the writer "
         "takes one queue item at a time and may be arbitrarily slow (validated by real child-process runs whose report files are re-read after the exit)",
@@ -2203,7 +2623,10 @@ def run(chk: core.Check):
         "identities x 7 statuses (rediscovery under another label is frequent); cassette histories with raising entries; schedules of main-thread / writer / join-timeout steps (writer speeds 0 to 2 items per put, "
         "the join returning, timing out at once or anywhere in the backlog, blocked then timing out, no exit) x report file owned by Click or not; real child "
         "processes running st run with 12 exchanges and report files on a slow device (--report-dir and --report-*-path); real st run invocations against "
-        "a loopback API answering with nasty payloads. non-trivial = needs escaping / has a payload or a fault / has a FAILURE event; distinct by canonical JSON"
+        "a loopback API answering with nasty payloads; whole ScenarioFinished events (5 phases x event label none / recorder label / another label x 5 statuses x skip_reason x "
+        "is_final x recorder with 0-3 cases, responses, network errors, unknown and raising charsets) in four shapes (independent attributes, a stateful run whose failing "
+        "sequence is replayed as a final scenario with fresh case ids, unit phases with the final empty ERROR event, everything final) through ExecutionContext + the real "
+        "CassetteWriter (VCR, HAR) + JunitXMLHandler; a real stateful st run whose linked step meets a transport error (final replay). non-trivial = needs escaping / has a payload or a fault / has a FAILURE event; distinct by canonical JSON"
     )
     chk.proofs(["Common", "C16"])
 
@@ -2214,6 +2637,7 @@ def run(chk: core.Check):
     stage_sequences(chk, (150 if quick else 1500) * (5 if chk.broken else 1))
     stage_junit(chk, 300 if quick else 4000)
     stage_cassette_thread(chk, 40 if quick else 400)
+    stage_event_space(chk, (80 if quick else 800) * (5 if chk.broken else 1))
     stage_lifecycle(chk, 60 if quick else 600)
     stage_cli(chk, quick)
     stage_process_exit(chk, quick)
@@ -2231,6 +2655,10 @@ def replay(payload) -> int:
         if isinstance(inp, dict) and "schedule" in inp:
             entries, state, exited, notes = run_lifecycle(inp["format"], inp["sanitize"], inp["preserve"], inp["history"], inp["report_file_owned_by_click"], list(inp["schedule"]))
             print("  replayed: in the file", entries, "| writer", state, "| exited", exited, "|", notes)
+        if isinstance(inp, dict) and "history" in inp and "format" not in inp and "sanitize" in inp:
+            h = [tuple(e) for e in inp["history"]]
+            out = run_fhistory(h, inp["sanitize"], inp["preserve"])
+            print("  replayed: delivered", [cid for cid, _ in out["delivered"]], "| vcr.yaml", out["VCR"], "| har.json", out["HAR"], "| writers", out.get("end"), "| crash", out["crash"])
         if isinstance(inp, dict) and "child_process" in inp:
             out = child_run(inp["report_paths"])
             print("  replayed: exit code", out["exit"], "| delivered", len(out["delivered"]), "| shutdown", out["shutdown"])
